@@ -39,7 +39,7 @@ class P(ServeProp):
                 hs.append(rnd.choice(["Origin"] * 6 + ["origin", "ORIGIN", "oRiGiN"]) + ": " + gs.gen_origin(rnd, origins))
                 if rnd.random() < 0.06: hs.append("Origin: " + gs.gen_origin(rnd, origins))      # a second Origin header: the first one counts
             if meth == "OPTIONS" and rnd.random() < 0.7:
-                hs += ["Access-Control-Request-Method: " + rnd.choice(["PUT", "DELETE", "x"]), rnd.choice(["Access-Control-Request-Headers", "access-control-request-headers"]) + ": " + rnd.choice(["X-A, Content-Type", "x-b", "", "X-é, a", "X-É, Ключ", "AUTHORIZATION"])]
+                hs += ["Access-Control-Request-Method: " + rnd.choice(["PUT", "DELETE", "x"]), rnd.choice(["Access-Control-Request-Headers", "access-control-request-headers"]) + ": " + rnd.choice(["X-A, Content-Type", "x-b", "", "X-é, a", "X-É, Ключ", "AUTHORIZATION", "X-ΟΔΟΣ, ΑΣ", "Σ, ΑΣ'Α, ΑΣ."])]
             if rnd.random() < 0.1:
                 hs.append("Range: bytes=0-1")
             kind = "serveL" if rnd.random() < 0.2 else "serve"
